@@ -154,6 +154,10 @@ def r3(ctx):
         found = True
         k = s.idx[0]
         same = len(v.args) >= 1 and v.args[0] == Idx(s.base, (k,))
+        if not same and len(v.args) >= 1:
+            # clusters[k] of the phase's input state is the same object as clusters[k] of its fresh shallow copy, as long as slot k of the
+            # copy has not been overwritten yet - and it is overwritten by this very store
+            same = tm.unshallow(v.args[0]) == tm.unshallow(Idx(s.base, (k,)))
         ctx.check(same, fi, "cluster k is replaced by the statistics update of cluster k of the same state", line=s.stmt.lineno,
                   role="slot", expected=f"clusters[{k}] = update(clusters[{k}], ...)", found=f"clusters[{k}] = update({v.args[0] if v.args else ''}, ...)")
         data_ok = len(v.args) >= 2 and v.args[1] == Sym(fi.params[1])
